@@ -130,6 +130,8 @@ def c09(ck, tier, seed):
                       "and family, singleton/empty/base under 2/6 orders; V: random histories on ZBDDs with add_vars")
     vlib.ensure_tables()
     plan = _tables_plan(tier, seed, "zbdd", kinds=["zbdd"]) + _hist_plan(tier, seed, kinds=["zbdd"], quick_count=80)
+    plan.append(("hist", {"kind": "zbdd", "seed": seed * 37, "tier": tier, "stress": 1, "steps": 120,
+                          "count": 40 if tier == "quick" else 400, "nmax": 5}))
     _bool_suite(ck, ["C09"], plan)
 
 
